@@ -38,6 +38,10 @@ func init() {
 			{Name: "seq-wrap-silent", File: "bfe_tls/conn.go", Old: "	panic(\"TLS: sequence number wraparound\")\n}", New: "}", Expect: "incseq-wrap"},
 			{Name: "seq-reset-on-alert", File: "bfe_tls/conn.go", Old: "		case alertLevelWarning:\n			// drop on the floor\n			c.in.freeBlock(b)", New: "		case alertLevelWarning:\n			// drop on the floor\n			c.in.resetSeq()\n			c.in.freeBlock(b)", Expect: "seq-reset-callers"},
 			{Name: "mac-omits-header", File: "bfe_tls/cipher_suites.go", Old: "func (s tls10MAC) MAC(digestBuf, seq, header, data []byte) []byte {\n	s.h.Reset()\n	s.h.Write(seq)\n	s.h.Write(header)\n", New: "func (s tls10MAC) MAC(digestBuf, seq, header, data []byte) []byte {\n	s.h.Reset()\n	s.h.Write(seq)\n", Expect: "mac-impl|tls10MAC.MAC:header"},
+			{Name: "silent-aead-arm-extracted", Silent: true, File: "bfe_tls/conn.go", Old: "// decrypt checks and strips the mac and decrypts the data in b. Returns a\n// success boolean, the number of bytes to skip from the start of the record in\n// order to get the application payload, and an optional alert value.\nfunc (hc *halfConn) decrypt(b *block) (ok bool, prefixLen int, alertValue alert) {\n\t// pull out payload\n\tpayload := b.data[recordHeaderLen:]\n\n\tmacSize := 0\n\tif hc.mac != nil {\n\t\tmacSize = hc.mac.Size()\n\t}\n\n\tpaddingGood := byte(255)\n\texplicitIVLen := 0\n\n\t// decrypt\n\tif hc.cipher != nil {\n\t\tswitch c := hc.cipher.(type) {\n\t\tcase cipher.Stream:\n\t\t\tc.XORKeyStream(payload, payload)\n\t\tcase aead:\n\t\t\texplicitIVLen = c.explicitNonceLen()\n\t\t\tif len(payload) < explicitIVLen {\n\t\t\t\treturn false, 0, alertBadRecordMAC\n\t\t\t}\n\t\t\tnonce := payload[:explicitIVLen]\n\t\t\tpayload = payload[explicitIVLen:]\n\t\t\tif len(nonce) == 0 {\n\t\t\t\tnonce = hc.seq[:]\n\t\t\t}\n\n\t\t\tvar additionalData [13]byte\n\t\t\tcopy(additionalData[:], hc.seq[:])\n\t\t\tcopy(additionalData[8:], b.data[:3])\n\t\t\tn := len(payload) - c.Overhead()\n\t\t\tadditionalData[11] = byte(n >> 8)\n\t\t\tadditionalData[12] = byte(n)\n\t\t\tvar err error\n\t\t\tpayload, err = c.Open(payload[:0], nonce, payload, additionalData[:])\n\t\t\tif err != nil {\n\t\t\t\treturn false, 0, alertBadRecordMAC\n\t\t\t}\n\t\t\tb.resize(recordHeaderLen + explicitIVLen + len(payload))", New: "// openAEADRecord authenticates and decrypts the AEAD-protected payload of the\n// record held in b. It returns the plaintext, the length of the explicit nonce\n// that precedes it in the record, and whether authentication succeeded. On\n// success b is shrunk to cover the header, explicit nonce and plaintext only.\nfunc (hc *halfConn) openAEADRecord(c aead, b *block, payload []byte) (plaintext []byte, explicitIVLen int, opened bool) {\n\texplicitIVLen = c.explicitNonceLen()\n\tif len(payload) < explicitIVLen {\n\t\treturn payload, explicitIVLen, false\n\t}\n\tnonce := payload[:explicitIVLen]\n\tpayload = payload[explicitIVLen:]\n\tif len(nonce) == 0 {\n\t\tnonce = hc.seq[:]\n\t}\n\n\tvar additionalData [13]byte\n\tcopy(additionalData[:], hc.seq[:])\n\tcopy(additionalData[8:], b.data[:3])\n\tn := len(payload) - c.Overhead()\n\tadditionalData[11] = byte(n >> 8)\n\tadditionalData[12] = byte(n)\n\tplaintext, err := c.Open(payload[:0], nonce, payload, additionalData[:])\n\tif err != nil {\n\t\treturn plaintext, explicitIVLen, false\n\t}\n\tb.resize(recordHeaderLen + explicitIVLen + len(plaintext))\n\treturn plaintext, explicitIVLen, true\n}\n\n// decrypt checks and strips the mac and decrypts the data in b. Returns a\n// success boolean, the number of bytes to skip from the start of the record in\n// order to get the application payload, and an optional alert value.\nfunc (hc *halfConn) decrypt(b *block) (ok bool, prefixLen int, alertValue alert) {\n\t// pull out payload\n\tpayload := b.data[recordHeaderLen:]\n\n\tmacSize := 0\n\tif hc.mac != nil {\n\t\tmacSize = hc.mac.Size()\n\t}\n\n\tpaddingGood := byte(255)\n\texplicitIVLen := 0\n\n\t// decrypt\n\tif hc.cipher != nil {\n\t\tswitch c := hc.cipher.(type) {\n\t\tcase cipher.Stream:\n\t\t\tc.XORKeyStream(payload, payload)\n\t\tcase aead:\n\t\t\tvar opened bool\n\t\t\tpayload, explicitIVLen, opened = hc.openAEADRecord(c, b, payload)\n\t\t\tif !opened {\n\t\t\t\treturn false, 0, alertBadRecordMAC\n\t\t\t}"},
+			{Name: "silent-incseq-flag-variable", Silent: true, File: "bfe_tls/conn.go", Old: "\tfor i := 7; i >= 0; i-- {\n\t\thc.seq[i]++\n\t\tif hc.seq[i] != 0 {\n\t\t\treturn\n\t\t}\n\t}\n\n\t// Not allowed to let sequence number wrap.\n\t// Instead, must renegotiate before it does.\n\t// Not likely enough to bother.\n\tpanic(\"TLS: sequence number wraparound\")\n}\n", New: "\twrapped := true\n\tfor i := 7; i >= 0; i-- {\n\t\thc.seq[i] += 1\n\t\tif hc.seq[i] != 0 {\n\t\t\twrapped = false\n\t\t\tbreak\n\t\t}\n\t}\n\n\t// Not allowed to let sequence number wrap.\n\tif wrapped {\n\t\tpanic(\"TLS: sequence number wraparound\")\n\t}\n}\n"},
+			{Name: "silent-incseq-break-and-index-test", Silent: true, File: "bfe_tls/conn.go", Old: "\tfor i := 7; i >= 0; i-- {\n\t\thc.seq[i]++\n\t\tif hc.seq[i] != 0 {\n\t\t\treturn\n\t\t}\n\t}\n\n\t// Not allowed to let sequence number wrap.\n", New: "\tpos := 7\n\tfor ; pos >= 0; pos-- {\n\t\thc.seq[pos]++\n\t\tif hc.seq[pos] != 0 {\n\t\t\tbreak\n\t\t}\n\t}\n\tif !(pos < 0) {\n\t\treturn\n\t}\n\n\t// Not allowed to let sequence number wrap.\n"},
+			{Name: "silent-cipher-change-resets-through-helper", Silent: true, File: "bfe_tls/conn.go", Old: "\thc.nextMac = nil\n\tfor i := range hc.seq {\n\t\thc.seq[i] = 0\n\t}\n\treturn nil\n", New: "\thc.nextMac = nil\n\thc.resetSeq()\n\treturn nil\n"},
 			{Name: "silent-extract-compare", Silent: true, File: "bfe_tls/conn.go", Old: "		if subtle.ConstantTimeCompare(localMAC, remoteMAC) != 1 || paddingGood != 255 {\n			return false, 0, alertBadRecordMAC\n		}\n", New: "		macOK := subtle.ConstantTimeCompare(localMAC, remoteMAC) == 1\n		if !macOK {\n			return false, 0, alertBadRecordMAC\n		}\n		if paddingGood != 255 {\n			return false, 0, alertBadRecordMAC\n		}\n"},
 		},
 	})
@@ -139,13 +143,71 @@ func c42Decrypt(c *core.Ctx) {
 		ci, ok := in.(ssa.CallInstruction)
 		return ok && core.CallIs(ci.Common(), incName)
 	}
+	// sameHC: base is decrypt's own half connection: decrypt's receiver, or the
+	// receiver/parameter of a private helper that every call site binds to it
+	var sameHC func(base ssa.Value, depth int) bool
+	sameHC = func(base ssa.Value, depth int) bool {
+		if len(dec.Params) > 0 && base == ssa.Value(dec.Params[0]) {
+			return true
+		}
+		p, isP := base.(*ssa.Parameter)
+		if !isP || depth > 3 || p.Parent() == dec {
+			return false
+		}
+		h := p.Parent()
+		idx := -1
+		for i, q := range h.Params {
+			if q == p {
+				idx = i
+			}
+		}
+		sites := c.P.CallSites(h)
+		if idx < 0 || len(sites) == 0 {
+			return false
+		}
+		for _, s := range sites {
+			if idx >= len(s.Common().Args) || !sameHC(s.Common().Args[idx], depth+1) {
+				return false
+			}
+		}
+		return true
+	}
 	isSeqSlice := func(v ssa.Value) bool {
 		s, ok := core.StripConv(v).(*ssa.Slice)
 		if !ok {
 			return false
 		}
 		f, base := tlsFieldAddrOf(s.X)
-		return f == seqF && len(dec.Params) > 0 && base == ssa.Value(dec.Params[0])
+		return f == seqF && sameHC(base, 0)
+	}
+	// decrypt's region: decrypt plus its private helpers (an arm of the cipher
+	// switch extracted into a method is still part of decrypt)
+	var regionInstrs []ssa.Instruction
+	c.P.RegionInstrs(dec, func(in ssa.Instruction) { regionInstrs = append(regionInstrs, in) })
+	for _, h := range c.P.Region(dec) {
+		if h != dec {
+			c.Analysed(core.FuncKey(h))
+		}
+	}
+	// inDec(in): the instruction of decrypt through which `in` (an instruction of
+	// decrypt's region) executes: itself, or the call of the helper that holds it
+	var inDec func(in ssa.Instruction, depth int) []ssa.Instruction
+	inDec = func(in ssa.Instruction, depth int) []ssa.Instruction {
+		fn := in.Parent()
+		for fn != nil && fn.Parent() != nil {
+			fn = fn.Parent() // closures run where they are created (conservative)
+		}
+		if fn == dec {
+			return []ssa.Instruction{in}
+		}
+		if depth > 3 {
+			return nil
+		}
+		var out []ssa.Instruction
+		for _, s := range c.P.CallSites(fn) {
+			out = append(out, inDec(s.(ssa.Instruction), depth+1)...)
+		}
+		return out
 	}
 	var succ, fail []*ssa.Return
 	for _, r := range core.Returns(dec) {
@@ -190,14 +252,21 @@ func c42Decrypt(c *core.Ctx) {
 			}
 			return false
 		}), "decrypt reports success although the padding check byte of removePadding/removePaddingSSL30 was not required to be 255; facts: "+tlsFactStrs(r.Block()))
-		// incSeq on every path to this return
-		bad := core.ReachAvoiding(dec, nil, isInc, func(in ssa.Instruction) bool { return in == ssa.Instruction(r) })
+		// incSeq on every path to this return (a helper that always calls incSeq counts)
+		bad := core.ReachAvoiding(dec, nil, core.LiftMust(isInc, 2), func(in ssa.Instruction) bool { return in == ssa.Instruction(r) })
 		c.Check("incseq-success", key, r.Pos(), bad == nil, "a path reaches decrypt's success return without incSeq: the next record would be verified under the same sequence number (replay accepted)")
 	}
 	c.Min("decrypt-mac", 2)
 	c.Min("decrypt-padding", 1)
 	c.Min("incseq-success", 1)
-	incs := core.Calls(dec, incName)
+	// instructions of decrypt that may run incSeq (directly or inside a callee)
+	var incs []ssa.CallInstruction
+	mayInc := core.LiftMay(isInc, 2)
+	for _, in := range tlsInstrs(dec) {
+		if ci, ok := in.(ssa.CallInstruction); ok && mayInc(in) {
+			incs = append(incs, ci)
+		}
+	}
 	for i, r := range fail {
 		key := fmt.Sprintf("decrypt:failure#%d", i+1)
 		rv := core.RetVals(r)
@@ -212,11 +281,13 @@ func c42Decrypt(c *core.Ctx) {
 		}
 		c.Check("incseq-failure", key, r.Pos(), !reach, "incSeq lies on a path to a failure return of decrypt: a rejected record consumes a sequence number")
 	}
-	c.Min("decrypt-fail-alert", 5)
-	c.Min("incseq-failure", 5)
+	// floors: 5 failure exits on the reference tree; folding the AEAD arm's two
+	// exits into one test of a helper's result legitimately leaves 4
+	c.Min("decrypt-fail-alert", 4)
+	c.Min("incseq-failure", 4)
 	// MAC calls: seq, header, payload
 	nm := 0
-	for _, in := range tlsInstrs(dec) {
+	for _, in := range regionInstrs {
 		v, ok := in.(ssa.Value)
 		if !ok {
 			continue
@@ -233,24 +304,118 @@ func c42Decrypt(c *core.Ctx) {
 		_, isS = core.StripConv(call.Call.Args[3]).(*ssa.Slice)
 		c.Check("mac-payload", key, call.Pos(), isS, "the MAC's data input is "+core.Render(call.Call.Args[3])+", expected the payload without the MAC")
 		for _, ic := range incs {
-			c.Check("incseq-order", key, call.Pos(), !tlsReaches(dec, ic.(ssa.Instruction), nil, func(x ssa.Instruction) bool { return x == in }),
-				"incSeq can run before the MAC of the same record is computed")
+			before := false
+			for _, at := range inDec(in, 0) {
+				at := at
+				if tlsReaches(dec, ic.(ssa.Instruction), nil, func(x ssa.Instruction) bool { return x == at }) {
+					before = true
+				}
+			}
+			c.Check("incseq-order", key, call.Pos(), !before, "incSeq can run before the MAC of the same record is computed")
 		}
 	}
 	c.Min("mac-seq", 1)
 	c.Min("incseq-order", 1)
-	// AEAD Open
+	// AEAD Open (in decrypt or in a private helper of it)
+	isSucc := func(y ssa.Instruction) bool {
+		for _, r := range succ {
+			if y == ssa.Instruction(r) {
+				return true
+			}
+		}
+		return false
+	}
+	// failKs(fn): for a private helper of decrypt, the boolean result positions
+	// whose value false makes decrypt fail: at every call site that result is
+	// branched on, nothing but the branch follows the call, and the false edge
+	// only reaches failure (recursively up to decrypt).
+	var failOnly func(fn *ssa.Function, b *ssa.BasicBlock, depth int) (bool, int)
+	var failKs func(fn *ssa.Function, depth int) []int
+	failKs = func(fn *ssa.Function, depth int) []int {
+		if depth > 3 {
+			return nil
+		}
+		var out []int
+		res := fn.Signature.Results()
+		sites := c.P.CallSites(fn)
+		for k := 0; k < res.Len() && len(sites) > 0; k++ {
+			if bt, ok := res.At(k).Type().Underlying().(*types.Basic); !ok || bt.Kind() != types.Bool {
+				continue
+			}
+			all := true
+			for _, site := range sites {
+				call, isCall := site.(*ssa.Call)
+				if !isCall {
+					all = false
+					break
+				}
+				caller := call.Parent()
+				tested := false
+				for _, x := range tlsInstrs(caller) {
+					ifi, isIf := x.(*ssa.If)
+					if !isIf {
+						continue
+					}
+					f := tlsNorm(ifi.Cond, true)
+					if !((res.Len() == 1 && f.V == ssa.Value(call)) || (res.Len() > 1 && tlsExtractOf(f.V, k) == call)) {
+						continue
+					}
+					failSucc := ifi.Block().Succs[1]
+					if !f.Pol {
+						failSucc = ifi.Block().Succs[0]
+					}
+					bypass := core.ReachAvoiding(caller, call, func(y ssa.Instruction) bool { return y == ssa.Instruction(ifi) }, core.IsReturn)
+					if fo, _ := failOnly(caller, failSucc, depth+1); fo && bypass == nil {
+						tested = true
+					}
+				}
+				if !tested {
+					all = false
+					break
+				}
+			}
+			if all {
+				out = append(out, k)
+			}
+		}
+		return out
+	}
+	// failOnly(fn, b): entering block b of fn, decrypt cannot succeed any more;
+	// for a helper also returns the result position that reports the failure.
+	failOnly = func(fn *ssa.Function, b *ssa.BasicBlock, depth int) (bool, int) {
+		if fn == dec {
+			return !tlsBlockReaches(dec, b, isSucc), -1
+		}
+		for _, k := range failKs(fn, depth) {
+			all := true
+			for _, r := range core.Returns(fn) {
+				r := r
+				if !tlsBlockReaches(fn, b, func(in ssa.Instruction) bool { return in == ssa.Instruction(r) }) {
+					continue
+				}
+				rv := core.RetVals(r)
+				if bv, isK := tlsIsBoolConst(rv[k]); !isK || bv {
+					all = false
+				}
+			}
+			if all {
+				return true, k
+			}
+		}
+		return false, -1
+	}
 	no := 0
-	for _, in := range tlsInstrs(dec) {
+	for _, in := range regionInstrs {
 		call, ok := in.(*ssa.Call)
 		if !ok || !call.Call.IsInvoke() || call.Call.Method.Name() != "Open" || len(call.Call.Args) != 4 {
 			continue
 		}
 		no++
 		key := fmt.Sprintf("decrypt:Open#%d", no)
+		of := call.Parent()
 		// error gating
 		gated := false
-		for _, x := range tlsInstrs(dec) {
+		for _, x := range tlsInstrs(of) {
 			ifi, ok := x.(*ssa.If)
 			if !ok {
 				continue
@@ -267,16 +432,21 @@ func c42Decrypt(c *core.Ctx) {
 			if op == token.EQL {
 				errSucc = ifi.Block().Succs[1]
 			}
-			isSucc := func(y ssa.Instruction) bool {
-				for _, r := range succ {
-					if y == ssa.Instruction(r) {
-						return true
-					}
+			fo, k := failOnly(of, errSucc, 0)
+			// a return that does not report failure must not be reachable from the call around the test
+			goodRet := func(y ssa.Instruction) bool {
+				if of == dec {
+					return isSucc(y)
 				}
-				return false
+				r, isR := y.(*ssa.Return)
+				if !isR || k < 0 {
+					return isR
+				}
+				bv, isK := tlsIsBoolConst(core.RetVals(r)[k])
+				return !isK || bv
 			}
-			bypass := core.ReachAvoiding(dec, call, func(y ssa.Instruction) bool { return y == ssa.Instruction(ifi) }, isSucc)
-			if !tlsBlockReaches(dec, errSucc, isSucc) && bypass == nil {
+			bypass := core.ReachAvoiding(of, call, func(y ssa.Instruction) bool { return y == ssa.Instruction(ifi) }, goodRet)
+			if fo && bypass == nil {
 				gated = true
 			}
 		}
@@ -285,7 +455,7 @@ func c42Decrypt(c *core.Ctx) {
 		ad, isS := core.StripConv(call.Call.Args[3]).(*ssa.Slice)
 		hasSeq, hasHdr := false, false
 		if isS {
-			for _, x := range tlsInstrs(dec) {
+			for _, x := range tlsInstrs(of) {
 				cp, ok := x.(*ssa.Call)
 				if !ok || core.CalleeKey(&cp.Call) != "builtin:copy" || len(cp.Call.Args) != 2 {
 					continue
@@ -305,8 +475,14 @@ func c42Decrypt(c *core.Ctx) {
 		c.Check("aead-ad", key+":seq", call.Pos(), hasSeq, "the AEAD additional data does not start with hc.seq: reordered or replayed records would verify")
 		c.Check("aead-ad", key+":header", call.Pos(), hasHdr, "the AEAD additional data does not include the record header (type, version)")
 		for _, ic := range incs {
-			c.Check("incseq-order", key, call.Pos(), !tlsReaches(dec, ic.(ssa.Instruction), nil, func(x ssa.Instruction) bool { return x == in }),
-				"incSeq can run before the AEAD Open of the same record")
+			before := false
+			for _, at := range inDec(in, 0) {
+				at := at
+				if tlsReaches(dec, ic.(ssa.Instruction), nil, func(x ssa.Instruction) bool { return x == at }) {
+					before = true
+				}
+			}
+			c.Check("incseq-order", key, call.Pos(), !before, "incSeq can run before the AEAD Open of the same record")
 		}
 	}
 	c.Min("aead-open-gated", 1)
@@ -354,7 +530,9 @@ func c42Seq(c *core.Ctx, fns []*ssa.Function) {
 				"halfConn.seq is written in "+k+"; only incSeq, changeCipherSpec and resetSeq may change the record sequence number")
 		}
 	}
-	c.Min("seq-writers", 3)
+	// incSeq, changeCipherSpec, resetSeq on the reference tree; changeCipherSpec may
+	// legitimately delegate its zeroing loop to resetSeq (2 writers left)
+	c.Min("seq-writers", 2)
 	// resetSeq callers
 	var badCallers []string
 	if rs := c.P.Func(tlsPkg, "halfConn.resetSeq"); rs != nil {
@@ -437,8 +615,9 @@ func c42Impls(c *core.Ctx) {
 				continue
 			}
 			c.Analysed(core.FuncKey(fn))
-			for _, pn := range []string{"seq", "header", "data"} {
-				p := tlsParam(fn, pn)
+			// MAC(digestBuf, seq, header, data): parameters by position (receiver is #0)
+			for pi, pn := range []string{"seq", "header", "data"} {
+				p := tlsParamAt(fn, 2+pi)
 				written := false
 				for _, ci := range core.AllCalls(fn) {
 					cc := ci.Common()
@@ -463,7 +642,7 @@ func c42Impls(c *core.Ctx) {
 				continue
 			}
 			c.Analysed(core.FuncKey(fn))
-			adP := tlsParam(fn, "additionalData")
+			adP := tlsParamAt(fn, 4) // Open(out, nonce, ciphertext, additionalData)
 			var inner *ssa.Call
 			for _, ci := range core.AllCalls(fn) {
 				cc := ci.Common()
@@ -602,7 +781,7 @@ func c42ReadRecord(c *core.Ctx) {
 	c.Min("record-return", 3)
 	// the sticky-error chain: setErrorLocked stores its argument, sendAlertLocked returns nil only for close_notify
 	if set := tlsFunc(c, "halfConn.setErrorLocked"); set != nil {
-		ep := tlsParam(set, "err")
+		ep := tlsParamAt(set, 1)
 		stores := false
 		for _, st := range core.FieldStores([]*ssa.Function{set}, errF) {
 			if tlsIsParam(st.Store.Val, ep) {
@@ -618,7 +797,7 @@ func c42ReadRecord(c *core.Ctx) {
 		c.Check("sticky-chain", "setErrorLocked", set.Pos(), stores && rets, "halfConn.setErrorLocked must store its argument in hc.err and return it")
 	}
 	if sal := tlsFunc(c, "Conn.sendAlertLocked"); sal != nil {
-		ep := tlsParam(sal, "err")
+		ep := tlsParamAt(sal, 1)
 		n := 0
 		for _, r := range core.Returns(sal) {
 			rv := core.RetVals(r)
